@@ -38,6 +38,7 @@ OSP_TOP = [([], [], False),
            (["ordered_subpage: index.md", "ordered_subpage: beta.md"], ["beta.md"], False),
            (["ordered_subpage: beta.md", "ordered_subpage: beta.md"], ["beta.md"], False),
            (["ordered_subpage: notes.txt", "ordered_subpage: beta.md"], ["notes.txt", "beta.md"], False),
+           (["ordered_subpage: beta.md", "ordered_subpage: api_index.md", "ordered_subpage: alpha.md"], ["beta.md", "api_index.md", "alpha.md"], False),
            (["ordered_subpage: missing.md"], ["missing.md"], True)]
 OSP_GUIDE = [([], []), (["ordered_subpage: zz.md"], ["zz.md"]), (["ordered_subpage: deep", "ordered_subpage: zz.md"], ["deep", "zz.md"])]
 COPY_TOP = [([], []), (["copy_subdir: assets"], ["assets"])]
@@ -116,7 +117,7 @@ def _tree(E, thorough):
     entries = {
         "top": DIR,
         "top/index.md": choice.apply(lambda o, c: _index("Top", OSP_TOP[o][0] + COPY_TOP[c][0]), osp, cp),
-        "top/alpha.md": page("Alpha", t_alpha), "top/beta.md": page("Beta", t_beta),
+        "top/alpha.md": page("Alpha", t_alpha), "top/beta.md": page("Beta", t_beta), "top/api_index.md": TITLED.format(t="ApiIndex"),
         "top/notes.txt": "plain", "top/.hidden.md": TITLED.format(t="Hidden"), "top/backup.md~": TITLED.format(t="Backup"),
         "top/assets": DIR, "top/assets/img.png": "png",
         "top/guide": DIR,
@@ -145,11 +146,13 @@ def expected_tree(alpha, beta, guide, zz, osp, ospg, cp):
 
     pages = [("index.html", "Top", None, [])]
     top_files = []
-    for n in order(OSP_TOP[osp][1], ["index.md", "alpha.md", "beta.md", "notes.txt", ".hidden.md", "backup.md~", "assets", "guide"]):
+    for n in order(OSP_TOP[osp][1], ["index.md", "alpha.md", "api_index.md", "beta.md", "notes.txt", ".hidden.md", "backup.md~", "assets", "guide"]):
         if n == "alpha.md" and alpha:
             pages.append(("alpha.html", "Alpha", [], ["Top"]))
         elif n == "beta.md" and beta:
             pages.append(("beta.html", "Beta", [], ["Top"]))
+        elif n == "api_index.md":
+            pages.append(("api_index.html", "ApiIndex", [], ["Top"]))
         elif n == "notes.txt":
             top_files.append(n)
         elif n == "guide" and guide:
@@ -219,6 +222,7 @@ def replay_tree(w):
         a, b, g, z, osp, ospg, cp = w["choices"]
         page = lambda name, has: TITLED.format(t=name) if has else UNTITLED
         files = {"index.md": _index("Top", OSP_TOP[osp][0] + COPY_TOP[cp][0]), "alpha.md": page("Alpha", a), "beta.md": page("Beta", b),
+                 "api_index.md": TITLED.format(t="ApiIndex"),
                  "notes.txt": "plain", ".hidden.md": TITLED.format(t="Hidden"), "backup.md~": TITLED.format(t="Backup"),
                  "assets/img.png": "png", "guide/index.md": _index("Guide", OSP_GUIDE[ospg][0]) if g else UNTITLED,
                  "guide/aa.md": TITLED.format(t="Aa"), "guide/zz.md": page("Zz", z), "guide/fig.png": "png",
